@@ -260,12 +260,19 @@ EXH_CFGS = [
 ]
 
 
-def exh_options(real, events, nsend):
-    """the alphabet enabled after `events` (looked up in the real objects' state)"""
+def exh_options(real, events, nsend, hooks=False):
+    """the alphabet enabled after `events` (looked up in the real objects' state).  hooks: every send is also
+    offered with a re-entrant callback - stop(), cancel of the oldest send, another send_messages"""
     opts = []
-    sent = sum(1 for e in events if e[0] == "send")
+    sent = sum(1 for e in events if e[0] in ("send", "sendh"))
     if sent < nsend:
-        opts.append([["send", sent, sent % 2, "6b" if real.cfg["partitioner"] == "hashed" else None, [10]]])
+        sid = real.next_sid
+        key = "6b" if real.cfg["partitioner"] == "hashed" else None
+        opts.append([["send", sid, sent % 2, key, [10]]])
+        if hooks:
+            opts.append([["sendh", sid, sent % 2, key, [10], [["x"]]]])
+            opts.append([["sendh", sid, sent % 2, key, [10], [["c", 0]]]])
+            opts.append([["sendh", sid, sent % 2, key, [10], [["s", (sent + 1) % 2, key, [10]]]]])
     for sid in real.outstanding():
         opts.append([["cancel", sid]])
     pend = real.pending_requests()
@@ -305,7 +312,8 @@ def exhaustive(pid, cfg, depth, nsend, prefix_choices, tally, cap=None):
     """DFS over all option sequences of length `depth` that start with `prefix_choices` (indices)"""
     batch = []
 
-    run_cfg = {k: v for k, v in cfg.items() if k != "meta_ready"}
+    run_cfg = {k: v for k, v in cfg.items() if k not in ("meta_ready", "hooks")}
+    with_hooks = bool(cfg.get("hooks"))
 
     def run_prefix(events):
         real = D.RealRun(run_cfg)
@@ -315,7 +323,7 @@ def exhaustive(pid, cfg, depth, nsend, prefix_choices, tally, cap=None):
 
     def rec(events, d, forced):
         real = run_prefix(events)
-        opts = exh_options(real, events, nsend)
+        opts = exh_options(real, events, nsend, hooks=with_hooks)
         if d == 0 or not opts:
             batch.append(({"cfg": run_cfg, "events": events}, real))
             if len(batch) >= 400:
@@ -344,8 +352,10 @@ def _exh_worker(args):
         sys.path.insert(0, repo)
     t = Tally()
     cfg = dict(EXH_CFGS[ci % 100])
-    if ci >= 100:
+    if (ci // 100) % 2 == 1:
         cfg["meta_ready"] = False
+    if ci >= 200:
+        cfg["hooks"] = True
     exhaustive(pid, cfg, depth, nsend, first, t)
     t.hist["exhaustive-sequences"] += t.evaluations
     return t
@@ -411,6 +421,10 @@ def scripted(ctx, res, pid, n_quick, n_thorough):
             jobs = [(pid, ci, [a, b], 7, 3, core.REPO) for ci in range(len(EXH_CFGS)) for a in range(3) for b in range(6)]
             # ... and without metadata in place (look-ups, back-off), depth 6
             jobs += [(pid, ci + 100, [a], 6, 2, core.REPO) for ci in range(len(EXH_CFGS)) for a in range(4)]
+            # ... and with re-entrant callbacks on the sends (stop / cancel / send from inside the firing loops),
+            # metadata in place (depth 5) and not (depth 5: look-ups fail and fire inside _send_requests)
+            jobs += [(pid, ci + 200, [a], 5, 3, core.REPO) for ci in range(len(EXH_CFGS)) for a in range(4)]
+            jobs += [(pid, ci + 300, [a], 5, 3, core.REPO) for ci in range(len(EXH_CFGS)) for a in range(4)]
             for t in pool.map(_exh_worker, jobs, chunksize=1):
                 merge(res, t)
     else:
